@@ -181,20 +181,21 @@ def type_text(ln):
     return ty
 
 
-def mod_text(side):
-    if side["off"] == 0 and side["w"] == 0 and side["b"] == "d":
+def mod_text(off, w, b):
+    if off == 0 and w == 0 and b == "d":
         return "$"
-    if side["w"] == 0 and side["b"] == "d":
-        return "${%d}" % side["off"]
-    if side["b"] == "d":
-        return "${%d,%d}" % (side["off"], side["w"])
-    return "${%d,%d,%s}" % (side["off"], side["w"], side["b"])
+    if w == 0 and b == "d":
+        return "${%d}" % off
+    if b == "d":
+        return "${%d,%d}" % (off, w)
+    return "${%d,%d,%s}" % (off, w, b)
 
 
-def side_rest(rest):
-    if rest[0] == "abs":
-        return "." + ".".join(rest[1]) + "."
-    return ("." + ".".join(rest[1])) if rest[1] else ""
+def side_text(side):
+    out = ""
+    for it in side["items"]:
+        out += it[1] if it[0] == "lit" else "." if it[0] == "dot" else mod_text(it[1], it[2], it[3])
+    return out + ("." if side["abs"] else "")
 
 
 def line_text(ln):
@@ -209,12 +210,12 @@ def line_text(ln):
         return {"qempty": '"" 300 IN A 10.0.0.1', "qemptyws": ' "" IN A 10.0.0.1'}[ln["what"]]
     if k == "gen":
         rng = "%d-%d" % (ln["start"], ln["stop"]) + ("/%d" % ln["step"] if ln["step"] != 1 else "")
-        lhs = ln["lhs"]["pre"] + mod_text(ln["lhs"]) + side_rest(ln["lhs"]["rest"])
+        lhs = side_text(ln["lhs"])
         r = ln["rhs"]
-        if r["rest"][0] == "none":
-            rhs = ".".join(str(x) for x in r["pfx"]) + "." + mod_text(r)
+        if r["kind"] == "addr":
+            rhs = ".".join(str(x) for x in r["pfx"]) + "." + mod_text(r["off"], 0, "d")
         else:
-            rhs = r["pre"] + mod_text(r) + side_rest(r["rest"])
+            rhs = side_text(r)
         parts = ["$GENERATE", rng, lhs]
         t = ttl_text(ln["ttl"])
         if t:
